@@ -228,6 +228,10 @@ class YosysStructuralTranslatorL4(
 
     c_n_dim = c_array_type["n_dim"]
 
+    # A single sub-component is instantiated under its own name
+    if not c_n_dim:
+      s.check_decl( c_id, f"Note: {c_id} is a sub-component of {m}" )
+
     # The sub-component, or the (nested) list of sub-components
     obj = getattr(m, c_id)
 
